@@ -112,3 +112,47 @@ func nameLenGen(idx int) (progCase, bool) {
 func init() {
 	semanticFamilies = append(semanticFamilies, progFamily{Name: "S16-fatal-errors-below-names-of-every-length", Count: func(string) int { return nameLenCount() }, Gen: func(_ string, idx int) (progCase, bool) { return nameLenGen(idx) }})
 }
+
+// S17 global initialisers that fail: an initialiser is a constant expression, and a constant
+// expression can still have no value (a zero divisor, an index beyond the end, a negative shift).
+// The program ends with the fatal error of that operation before `main` runs - in the entry
+// module and in an imported one.
+
+var failingInits = []struct {
+	name string
+	x    func() hs.Expr
+}{
+	{"division-by-zero", func() hs.Expr { return hs.Bin("/", hs.I(1), hs.I(0)) }},
+	{"remainder-by-zero", func() hs.Expr { return hs.Bin("%", hs.I(10), hs.I(0)) }},
+	{"index-beyond-the-end", func() hs.Expr { return hs.Idx(hs.List(hs.I(1), hs.I(2)), hs.I(5)) }},
+	{"negative-shift", func() hs.Expr { return hs.Bin("<<", hs.I(1), hs.Bin("-", hs.I(0), hs.I(1))) }},
+	{"nested-in-a-list", func() hs.Expr { return hs.List(hs.I(1), hs.Bin("/", hs.I(4), hs.Bin("-", hs.I(2), hs.I(2)))) }},
+	{"nested-in-an-object", func() hs.Expr {
+		return &hs.ObjLit{Fields: []hs.ObjField{{Name: "a", X: hs.I(1)}, {Name: "b", X: hs.Bin("%", hs.I(4), hs.I(0))}}}
+	}},
+}
+
+var failingInitPlaces = []string{"only-global", "after-other-globals", "before-other-globals"}
+
+func failInitCount() int { return len(failingInits) * len(failingInitPlaces) }
+
+func failInitGen(idx int) (progCase, bool) {
+	d := radix(idx, len(failingInitPlaces), len(failingInits))
+	place, fi := failingInitPlaces[d[0]], failingInits[d[1]]
+	prog := &hs.Program{}
+	bad := &hs.Let{Name: "bad", X: fi.x()}
+	switch place {
+	case "only-global":
+		prog.Globals = []*hs.Let{bad}
+	case "after-other-globals":
+		prog.Globals = []*hs.Let{{Name: "first", X: hs.I(1)}, {Name: "second", X: hs.S("s")}, bad}
+	case "before-other-globals":
+		prog.Globals = []*hs.Let{bad, {Name: "later", X: hs.I(2)}}
+	}
+	prog.Funcs = append(prog.Funcs, hs.Fn("main", nil, hs.Blk(nil, hs.Println(hs.S("main runs")), hs.Println(hs.V("bad")))))
+	return mkCase(prog, "failing-initialiser:"+fi.name, "place:"+place), true
+}
+
+func init() {
+	semanticFamilies = append(semanticFamilies, progFamily{Name: "S17-global-initialisers-that-fail", Count: func(string) int { return failInitCount() }, Gen: func(_ string, idx int) (progCase, bool) { return failInitGen(idx) }})
+}
